@@ -49,6 +49,7 @@ theorem nestedOf_row (S : NStore) (hl : LevelOk S) (r : Row) (hr : r ∈ table S
   have hE : r.entry ∈ S.flat.entries := row_entry_mem S.flat r hr
   cases valCase_of_level S hl r.entry hE with
   | plain hp => rw [nestedOf_expect S.pol S.guids r hp] at h; cases h
+  | refused ho => rw [nestedOf_opaque S.pol S.guids r ho] at h; cases h
   | nested n hn hc hv hx hpol hnd =>
     have hwn := wfN_level n (hl.subs n hn)
     rw [nestedOf_nested S.pol S.guids r n hwn.parts hpol hc hnd] at h
@@ -95,7 +96,43 @@ theorem nested_of_rows (S : NStore) (h : WFN S) (r : Row) (hr : r ∈ table S.fl
     exact ⟨n, hn, h1, h2⟩
   · intro n hn hc hnd
     have hE := row_entry_mem S.flat r hr
+    have hpolN : n.pol = S.pol := by
+      -- a nested store has the polarity of its parent
+      obtain ⟨e, he, hs⟩ := List.mem_filterMap.1 hn
+      have hv := hl.vals e he
+      cases e with
+      | dead a nx b => simp [NEntry.sub?] at hs
+      | var f g nm v x nx =>
+        cases v with
+        | raw b => simp [NEntry.sub?] at hs
+        | store n0 =>
+          simp only [NEntry.sub?, Option.some.injEq] at hs
+          subst hs
+          simp only [NEntry.valueOk, valueOk, Bool.and_eq_true, beq_iff_eq] at hv
+          exact hv.2
+      | data f v x nx =>
+        cases v with
+        | raw b => simp [NEntry.sub?] at hs
+        | store n0 =>
+          simp only [NEntry.sub?, Option.some.injEq] at hs
+          subst hs
+          simp only [NEntry.valueOk, valueOk, Bool.and_eq_true, beq_iff_eq] at hv
+          exact hv.2
     cases valCase_of_level S hl r.entry hE with
+    | refused ho =>
+      -- a content fiano refuses as a store and that equals the bytes of a well-formed store: the store
+      -- has no entry (otherwise it parses)
+      have hwn := (wfN_level n (hl.subs n hn)).parts
+      rw [nestedOf_opaque S.pol S.guids r ho]
+      by_cases hes : n.entries = []
+      · simp [hes]
+      · exfalso
+        have hps := parseStore_ser_parts n.flat hwn
+        rw [flat_pol, hpolN] at hps
+        rw [hc] at ho
+        unfold notStore NStore.ser at ho
+        rw [hps] at ho
+        cases ho
     | plain hp =>
       -- a plain content that equals the bytes of a store: the store has no entry
       have hwn := (wfN_level n (hl.subs n hn)).parts
